@@ -42,6 +42,48 @@ Theorem C09_vec_no_account_skipped :
     validate_vec accs ls form k <> Ok tt.
 Proof. exact validate_vec_no_account_skipped. Qed.
 
+(* derived sets with several fields: every field's account is checked against THAT field's stack of checks *)
+Theorem C09_set_accepts_iff_every_field :
+  forall fs, Forall (fun '(a, ls) => acct_ok a /\ Forall layer_wf ls) fs ->
+    (validate_fields fs = Ok tt <-> Forall (fun '(a, ls) => Forall (layer_ok a) ls) fs).
+Proof. exact validate_fields_iff. Qed.
+
+Theorem C09_set_first_error :
+  forall fs e, validate_fields fs = Err e ->
+    exists pre a ls post,
+      fs = pre ++ (a, ls) :: post /\ Forall (fun '(a', ls') => validate_layers a' ls' = Ok tt) pre /\ validate_layers a ls = Err e.
+Proof. exact validate_fields_first_error. Qed.
+
+Theorem C09_set_first_error_conv :
+  forall pre a ls post e,
+    Forall (fun '(a', ls') => validate_layers a' ls' = Ok tt) pre -> validate_layers a ls = Err e ->
+    validate_fields (pre ++ (a, ls) :: post) = Err e.
+Proof. exact validate_fields_first_error_conv. Qed.
+
+Theorem C09_set_check_stays_with_its_field :
+  forall fs i a ls k, Forall (fun '(a, ls) => acct_ok a /\ Forall layer_wf ls) fs ->
+    nth_error fs i = Some (a, ls) -> In (LAddress k) ls -> a_key a <> k ->
+    validate_fields fs <> Ok tt.
+Proof. exact validate_fields_check_stays_with_its_field. Qed.
+
+(* the address pinned on the SECOND field: the accounts in their places are accepted; swapped, the set is rejected although
+   the pinned key is present (on the first field), and a set whose pinned field has another key is rejected even when every
+   other field's account has the pinned key *)
+Example C09_set_nonvacuous :
+  let k := repeat 5 32 in
+  let other := repeat 6 32 in
+  let pinned := mkAcct k (repeat 0 32) false false [] true in
+  let free := mkAcct other (repeat 0 32) true false [] true in
+  Forall (fun '(a, ls) => acct_ok a /\ Forall layer_wf ls) [(free, [LSigner]); (pinned, [LAddress k])] /\
+  validate_fields [(free, [LSigner]); (pinned, [LAddress k])] = Ok tt /\
+  validate_fields [(pinned, []); (free, [LAddress k])] = Err EC_ADDRESS_MISMATCH /\
+  validate_fields [(pinned, []); (pinned, []); (free, [LAddress k; LSigner])] = Err EC_ADDRESS_MISMATCH /\
+  validate_fields [(pinned, [LSigner]); (free, [LAddress k])] = Err EC_EXPECTED_SIGNER /\
+  run_c09s (repeat 55 32 ++ [3; 2] ++ other ++ repeat 0 32 ++ [1; 0; 1; 1] ++ k ++ repeat 0 32 ++ [0; 0; 33; 6] ++ k) = [0] /\
+  run_c09s (repeat 55 32 ++ [3; 2] ++ k ++ repeat 0 32 ++ [1; 0; 1; 1] ++ other ++ repeat 0 32 ++ [0; 0; 33; 6] ++ k)
+    = [1; EC_ADDRESS_MISMATCH].
+Proof. vm_compute. repeat split; try reflexivity; repeat constructor. Qed.
+
 Example C09_vec_nonvacuous :
   let k := repeat 5 32 in
   let good := mkAcct k (repeat 0 32) true true [] true in
